@@ -920,14 +920,20 @@ func (ss *SpecSet) loadFile(path string) error {
 		case "at":
 			cur = nil
 			// at FUNCKEY ANCHOR before|after assert[tag] EXPR  |  ghost LHS = EXPR
-			if len(f) < 6 {
+			if len(f) < 5 {
 				return fmt.Errorf("%s: at FUNC ANCHOR before|after assert|ghost ...", pos)
 			}
 			a := &AtStmt{Func: f[1], Anchor: f[2], When: f[3], Pos: pos}
 			r := rest(4)
+			if f[2] == "entry" {
+				// at FUNC entry ghost LHS = EXPR   (no before/after)
+				a.When = "entry"
+				r = rest(3)
+			}
 			if strings.HasPrefix(r, "assert") {
 				a.Kind = "assert"
 				props, tag, r2 := parseTag(strings.TrimSpace(r[len("assert"):]))
+				_ = tag
 				a.Props, a.Tag, a.Src = props, tag, r2
 				e, err := parseExprString(r2, pos)
 				if err != nil {
@@ -936,7 +942,8 @@ func (ss *SpecSet) loadFile(path string) error {
 				a.E = e
 			} else if strings.HasPrefix(r, "ghost") {
 				a.Kind = "ghost"
-				r2 := strings.TrimSpace(r[len("ghost"):])
+				gprops, _, r2 := parseTag(strings.TrimSpace(r[len("ghost"):]))
+				a.Props = gprops
 				eq := strings.Index(r2, " = ")
 				if eq < 0 {
 					return fmt.Errorf("%s: ghost LHS = EXPR", pos)
